@@ -221,31 +221,46 @@ class Check:
                     names.append((m, ".".join(ns + [mm.group(1)])))
         return names
 
+    def import_closure(self, roots):
+        """Lean source files (under lean/) transitively imported by the given modules"""
+        seen, todo = {}, list(roots)
+        while todo:
+            m = todo.pop()
+            if m in seen:
+                continue
+            path = os.path.join(LEAN, *m.split(".")) + ".lean"
+            if not os.path.exists(path):
+                continue
+            seen[m] = path
+            for line in open(path):
+                mm = re.match(r"\s*import\s+((?:Wasp|Driver)[\w.]*)", line)
+                if mm:
+                    todo.append(mm.group(1))
+        return seen
+
     def _grep_gate(self):
-        ob = Obligation("grep-gate", "no sorry/admit/axiom/native_decide/bv_decide/implemented_by/unsafe/maxHeartbeats 0 in lean/")
+        ob = Obligation("grep-gate", "no sorry/admit/axiom/native_decide/bv_decide/implemented_by/unsafe/maxHeartbeats 0 in the modules this property depends on")
         self.obligations.append(ob)
         hits = []
-        for root, _, files in os.walk(LEAN):
-            if ".lake" in root:
-                continue
-            for f in files:
-                if f.endswith(".lean"):
-                    incomment = False
-                    for i, line in enumerate(open(os.path.join(root, f)), 1):
-                        s = line
-                        if "/-" in s and "-/" not in s:
-                            incomment = True
-                        if incomment:
-                            if "-/" in s:
-                                incomment = False
-                            continue
-                        s = re.sub(r"--.*", "", s)
-                        s = re.sub(r"/-.*?-/", "", s)
-                        s = re.sub(r'"[^"]*"', '""', s)
-                        if FORBIDDEN.search(s):
-                            hits.append(f"{f}:{i}: {line.strip()[:80]}")
+        files = self.import_closure(list(self.theorem_modules) + ["Driver.Main"])
+        for m, path in sorted(files.items()):
+            incomment = False
+            for i, line in enumerate(open(path), 1):
+                s = line
+                if incomment:
+                    if "-/" in s:
+                        incomment = False
+                    continue
+                s = re.sub(r"/-.*?-/", "", s)
+                if "/-" in s:
+                    incomment = True
+                    s = s[:s.index("/-")]
+                s = re.sub(r"--.*", "", s)
+                s = re.sub(r'"[^"]*"', '""', s)
+                if FORBIDDEN.search(s):
+                    hits.append(f"{m}:{i}: {line.strip()[:80]}")
         ob.ok = not hits
-        ob.detail = "; ".join(hits[:5])
+        ob.detail = f"{len(files)} modules; " + "; ".join(hits[:5])
         if hits:
             self.broken.append((ob.name, ob.detail))
 
